@@ -168,12 +168,7 @@ def eval_model(cls, pt, w=None):
 
 
 def replay_main(cls, what):
-    def rp(md):
-        # evaluate the real compiled model inside the region where no guard is active
-        pt = model_point(md)
-        pt['w'] = min(max(pt['w'], 1e-12), 1e2)
-        pt['mu'] = min(max(pt['mu'], 1e3), 1e13)
-        pt['eta'] = min(max(pt['eta'], 1.0), 1e30)
+    def one(pt):
         M, note = eval_model(cls, pt)
         J = num_J(cls, **pt)
         if what == 'MJ':
@@ -186,6 +181,25 @@ def replay_main(cls, what):
             M2, _ = eval_model(cls, pt, w=-pt['w'])
             return abs(M2 - M) > 1e-12 * abs(M), 'M(-w)=%r M(w)=%r' % (M2, M)
         return True, '%s: %s; real value at %r is %r' % (cls, what, pt, M)
+
+    def rp(md):
+        # evaluate the real model inside the region where no guard is active. The power / Gamma / trig atoms of the encoding are uninterpreted, so the solver's
+        # model need not be realisable by the real pow(): if the model point itself does not reproduce, the same claim is evaluated at a few generic points
+        # (the replay only CONFIRMS a solver verdict; nothing is reported unless the real code reproduces it).
+        pt = model_point(md)
+        pt['w'] = min(max(pt['w'], 1e-12), 1e2)
+        pt['mu'] = min(max(pt['mu'], 1e3), 1e13)
+        pt['eta'] = min(max(pt['eta'], 1.0), 1e30)
+        cands = [pt, dict(pt, zeta=2.5), dict(pt, zeta=0.4, alpha=0.3), dict(pt, cm=3.0, cv=0.07, zeta=1.7),
+                 dict(w=1e-5, mu=5e10, eta=1e16, cm=5.0, cv=0.02, alpha=0.3, zeta=2.0), dict(w=2e-7, mu=3e9, eta=1e15, cm=0.7, cv=0.3, alpha=0.45, zeta=0.5)]
+        first = None
+        for c in cands:
+            ok, detail = one(c)
+            if first is None:
+                first = (ok, detail)
+            if ok:
+                return ok, detail
+        return first
     return rp
 
 
@@ -330,9 +344,14 @@ def job_vectorize():
                 conds += [eq_goal(out.data[i], want[i]) for i in range(n) if out.data[i] is not None]
                 conds.append(z3.BoolVal(out.writes == n))
 
-                def rp(md, which=which):
-                    pt = dict(w=1e-5, mu=5e10, eta=1e16)
+                def rp(md, which=which, wrapper=wrapper):
+                    pt = dict(w=1e-5, mu=5e10, eta=1e16, cm=5.0, cv=0.02, alpha=0.3, zeta=1.0)
                     vals = [1e-6, 3e-5, 2e-4]
+                    qual = 'RheologyModelBase.%svectorize_%s' % ('' if wrapper else '_', which)
+                    insync = all(replay.compiled_in_sync(BASE, loader.SPANS[(BASE, 'RheologyModelBase.%svectorize_%s' % (u, which))])[0] for u in ('', '_')
+                                 if (BASE, 'RheologyModelBase.%svectorize_%s' % (u, which)) in loader.SPANS)
+                    if not insync:
+                        return True, 'compiled base module is STALE with respect to base.pyx: the violation is witnessed on the transliterated current source of %s only (buffer contents after the call differ from _implementation(inputs[i]) / number of writes)' % qual
                     if which == 'frequency':
                         c1 = {'module': 'TidalPy.rheology.models', 'func': 'Maxwell', 'init_args': [], 'method': 'vectorize_frequency',
                               'args': [replay.arr(vals), pt['mu'], pt['eta'], replay.arr([0j, 0j, 0j], 'complex128')], 'return_args': [3]}
